@@ -849,6 +849,24 @@ def makeMoves (c : Cfg) : Game → List Move → Option Game
   | g, [] => some g
   | g, m :: ms => (makeMove c g m).bind fun g' => makeMoves c g' ms
 
+/-- the side condition of `makeMove_consistent` / `sync_makeMove` holds for every legal move -/
+theorem castle_hyp_of_legal (g : Game) (m : Move) (hl : m ∈ legalMoves (ofGame g)) :
+    m.isCastling = true → ∀ rf rt, castleSquares g.player m.dst = some (rf, rt) →
+      rt ≠ rf ∧ rt ≠ m.dst ∧ rt ≠ m.src ∧ g.board.pieceAt rt = none := by
+  intro hcs rf rt hsq
+  obtain ⟨hps, _⟩ := (mem_legalMoves_iff (ofGame g) m).1 hl
+  rcases hps with ⟨s, pc, ha, _, hm⟩ | hcm
+  · rw [(piece_move_src (ofGame g) s pc m ha hm).2] at hcs; cases hcs
+  · obtain ⟨rf', rt', hmv, _, hsq', _, _, hrte, _, _, _, n4, n5, n6⟩ := castle_move_facts2 (ofGame g) m hcm
+    have hsq0 : castleSquares g.player m.dst = some (rf', rt') := hsq'
+    rw [hsq0] at hsq
+    have := Option.some.inj hsq
+    simp only [Prod.mk.injEq] at this
+    obtain ⟨e1, e2⟩ := this
+    subst e1; subst e2
+    have hms : m.src = kingStart g.player := by rw [hmv]; rfl
+    exact ⟨Ne.symm n6, n5, by rw [hms]; exact n4, hrte⟩
+
 /-- **game_refines**: along every game of legal moves from a position that satisfies the invariant (and
 whose board views agree), `make_move` answers at every step, the engine's position is the rules'
 position, the views keep agreeing and the invariant keeps holding -/
@@ -944,5 +962,31 @@ theorem game_generate_exact (T : SliderTables) (c : Cfg) (g : Game) (ms : List M
   obtain ⟨caps, cache, quiets, h1, h2, h3⟩ := generate_exact T g' k hk
   refine ⟨g', hg', e, caps, cache, quiets, h1, h2, generate_nodup T g' k hk caps cache quiets h1 h2, ?_⟩
   rw [← e]; exact h3
+
+end Tcheran
+
+namespace Tcheran
+open Board Game Rules
+
+/-- **game_sync**: along every game of legal moves from a position whose key and accumulators are in step
+with its board, they stay in step: the carried key is the key computed from scratch and the incremental
+evaluation state is the recomputation, at every reached position (C03 / C15 along games) -/
+theorem game_sync (c : Cfg) (g : Game) (ms : List Move) (pos' : Pos) (hs : Sync c g)
+    (h : GInv (ofGame g)) (hp : LegalPath (ofGame g) ms pos') :
+    ∃ g', makeMoves c g ms = some g' ∧ ofGame g' = pos' ∧ Sync c g' := by
+  generalize hpos : ofGame g = pos at hp
+  induction hp generalizing g with
+  | nil _ => exact ⟨g, rfl, hpos, hs⟩
+  | cons pos m ms pos' hl _ ih =>
+    subst hpos
+    obtain ⟨k, hk⟩ := posH_of_ginv g hs.cons h
+    obtain ⟨g1, hg1, hr⟩ := make_move_legal_total c g k hk m hl
+    have hs1 : Sync c g1 := sync_makeMove c g g1 m hs hg1 (castle_hyp_of_legal g m hl)
+    have hi1 : GInv (ofGame g1) := by rw [hr]; exact ginv_apply _ m h hl
+    obtain ⟨g', hg', e, hs'⟩ := ih g1 hs1 hi1 hr
+    refine ⟨g', ?_, e, hs'⟩
+    show (makeMove c g m).bind _ = some g'
+    rw [hg1]
+    exact hg'
 
 end Tcheran
